@@ -599,3 +599,76 @@ func (c *Counter) Stamp(limit int64) (int64, bool) {
 	c.last = t
 	return t<<10 | c.seq&1023, true
 }
+
+// ---- joined ifs (branches that only fall through) in all positions
+
+func JoinPanic(b []byte, i int, flag bool) int {
+	x := 1
+	if flag {
+		x = int(b[i])
+	} else if i > 3 {
+		_ = b[i-3]
+	}
+	if i < 0 {
+		_ = b[0]
+	}
+	y := x
+	if x > 10 {
+		if flag {
+			y = x / i
+		} else {
+			y -= x
+		}
+		x++
+	}
+	return x + y
+}
+
+func JoinLoop(b []uint8) (lo, hi int) {
+	for i, v := range b {
+		if v < 128 {
+			lo += int(v)
+			if i%2 == 0 {
+				lo++
+			}
+		} else {
+			hi += int(v)
+		}
+		if lo > 1000 {
+			lo = 0
+		}
+	}
+	return
+}
+
+func (c *Counter) JoinFields(v int64, b []uint16) int64 {
+	if v > c.last {
+		c.last = v
+		if v > 100 {
+			c.wraps++
+		}
+	} else {
+		c.seq--
+	}
+	for _, h := range b {
+		if int64(h) > c.seq {
+			c.seq = int64(h)
+		}
+	}
+	return c.seq + c.last
+}
+
+func JoinSwitch(k int8, b []int8) int8 {
+	r := k
+	if k > 0 {
+		switch k {
+		case 1:
+			r = 10
+		case 2:
+			r = b[0]
+		default:
+			r = -k
+		}
+	}
+	return r
+}
